@@ -414,7 +414,7 @@ func PublishContext[T any](bus *EventBus, ctx context.Context, event T) {
 	handlersCopy := make([]*internalHandler, len(handlers))
 	copy(handlersCopy, handlers)
 	shard.mu.RUnlock()
-	verifYield("publish.snapshot", nil)
+	verifYield("publish.snapshot", nil, 0)
 
 	// Execute handlers without holding the lock
 	var wg sync.WaitGroup
@@ -445,7 +445,7 @@ func PublishContext[T any](bus *EventBus, ctx context.Context, event T) {
 			}
 			// Mark for removal after execution
 			onceHandlersToRemove = append(onceHandlersToRemove, h)
-			verifYield("publish.claimed", h)
+			verifYield("publish.claimed", h, 0)
 		}
 
 		if h.async {
@@ -455,11 +455,12 @@ func PublishContext[T any](bus *EventBus, ctx context.Context, event T) {
 			if h.sequential {
 				ticket = h.takeTicket()
 			}
+			spawnID := verifSpawn(h)
 			go func(handler *internalHandler) {
 				defer wg.Done()
 				defer bus.wg.done()
-				defer verifYield("async.end", handler)
-				verifYield("async.start", handler)
+				defer verifYield("async.end", handler, spawnID)
+				verifYield("async.start", handler, spawnID)
 
 				// Sequential async handlers process events in publish order
 				if handler.sequential {
@@ -488,7 +489,7 @@ func PublishContext[T any](bus *EventBus, ctx context.Context, event T) {
 
 	// Remove once handlers that were executed
 	if len(onceHandlersToRemove) > 0 {
-		verifYield("publish.retire", nil)
+		verifYield("publish.retire", nil, 0)
 		shard.mu.Lock()
 		handlers := shard.handlers[eventType]
 		for _, onceHandler := range onceHandlersToRemove {
@@ -501,7 +502,7 @@ func PublishContext[T any](bus *EventBus, ctx context.Context, event T) {
 		}
 		shard.handlers[eventType] = handlers
 		shard.mu.Unlock()
-		verifYield("publish.retired", nil)
+		verifYield("publish.retired", nil, 0)
 	}
 
 	// For async handlers, we don't wait inline to avoid blocking
